@@ -57,7 +57,7 @@ def save_npz(filename, matrix, compressed=True):
 
     if type(matrix) is COO:
         nodes["coords"] = matrix.coords
-    elif type(matrix) is GCXS:
+    elif isinstance(matrix, GCXS):
         nodes["indices"] = matrix.indices
         nodes["indptr"] = matrix.indptr
         # `None` (fewer than two dimensions) would be stored as an object array, which `load_npz` cannot read
